@@ -79,7 +79,7 @@ func gwProjects(c *core.Ctx, n, years int, salt int64) []*gen.Project {
 	for i := 0; i < n; i++ {
 		r := rngFor(c, salt+int64(i))
 		from := []string{"gwTimeSeries", "polygonfile", "gwTimeSeries", "soilfile", "polygonfile"}[i%5]
-		o := gen.Opts{Years: years, MinLayers: 3, MaxLayers: 20, GWFrom: []string{from}, ShallowGW: true, NoCrops: i%2 == 0, Stones: i%4 == 1, MaxStone: 60,
+		o := gen.Opts{Years: years, MinLayers: 3, MaxLayers: 20, GWFrom: []string{from}, ShallowGW: true, NoCrops: i%2 == 0, Stones: i%4 == 1 || i%4 == 0, MaxStone: 60,
 			HighCorg: i%3 == 0, Schedules: i%3 == 1, BeginAnyDay: i%2 == 1, DateFormats: []int{1, 3, 0}}
 		p := gen.Random(r, fmt.Sprintf("g%d_%d", c.Seed, i), o)
 		b, e := p.Rotation[0].Harv, p.Cfg.End
@@ -137,6 +137,23 @@ func gwProjects(c *core.Ctx, n, years int, salt int64) []*gen.Project {
 			}
 		}
 		p.Arms = []string{fmt.Sprintf("gw=%s points=%d high=%d low=%d phase=%d explicit=%v", from, len(p.GWSeries), p.GWHigh, p.GWLow, p.Cfg.GWPhase, explicit)}
+		if !explicit && from == "gwTimeSeries" && i%10 == 0 {
+			// texture-table route with the smallest available water capacities of the table (dense medium sands, little
+			// humus) under a table that wanders through all groundwater classes of the table (shallower than 9 dm ...
+			// deeper than 30 dm): the top layer's threshold has to follow the field capacity of the day
+			p.Soil.Horizons[0].Texture = []string{"SM", "SMG"}[r.Intn(2)]
+			p.Soil.Horizons[0].BDClass = 4 + r.Intn(2)
+			p.Soil.Horizons[0].Corg100 = 20 + r.Intn(90)
+			p.Soil.Horizons[0].StonePct = 0
+			p.GWSeries = nil
+			d := b - 30
+			for k := 0; d < e+60; k++ {
+				lv := []int{300, 3400, 700, 1200, 4200, 2000, 500, 3100}[k%8] + 10*r.Intn(20) // shallow first: the values of Input belong to the wettest class
+				p.GWSeries = append(p.GWSeries, gen.GWPoint{Date: d, Dm100: lv})
+				d += 20 + r.Intn(70)
+			}
+			p.Arms = append(p.Arms, "table route: dense sand, table through all groundwater classes")
+		}
 		ps = append(ps, p)
 	}
 	return ps
